@@ -9,7 +9,7 @@ NA={
  'C22':"quantifies over programs (InfluxQL queries) executed by the whole query engine against a reference evaluator: a whole-program differential run, not a bounded kernel a solver can decide",
  'C30':"tenant services are thin layers over the kv store with encoding/json (reflection) on every record; uniqueness is a property of histories through bolt/inmem indexes; no encodable kernel remains once kv and json are stubbed",
  'C38':"backup/restore is tar streaming, hard links, directory walks and file replacement: environment behaviour, not a function of symbolic data",
- 'C39':"data races, deadlocks and linearizability under all schedules; the engine executes one deterministic schedule and must not be read as covering others",
+ 'C39':"absence of data races is outside any schedule exploration that switches at synchronisation operations only (symgo/sched.go interleaves harness goroutines at mutex/atomic/sync.Map operations; a data race is exactly what is invisible there), and the operations the property names (compactions, backups, shard close, purger) run on the engine's own goroutines, tickers and real files, which that scheduler does not interleave; the cache- and field-level parts that are reachable are claimed under C09 and C10",
  'C41':"Flux table construction over Arrow builders/allocators and the flux execute package (cgo/libflux dependent); window clipping is interleaved with buffer management that cannot be separated into a pure kernel",
  'C42':"store-level merge of per-shard tsi1 results with authorizers; depends on C14's machinery",
  'C43':"DBRP service is kv + encoding/json + index buckets; the default-mapping bookkeeping is expressed through store transactions, so the pre-state cannot be made symbolic without replacing the code under test",
@@ -41,7 +41,7 @@ for p in props:
           "engine":"symgo",
           "level_claimed":{"category":"model_checking","text":"bounded symbolic model checking of the real code: every input within the stated bounds is covered by solver verdicts (unsat on every path); outside the claim: "+spec.get('outside',''),"design_ref":"DESIGN.md section 6, "+pid},
           "level_note":"trusted: go/ssa construction, the symgo interpreter, the SMT solver(s), the stubs and reference models in /verif/harness/%s; assumptions: %s"%(pid,'; '.join(spec.get('assumptions',[])) or 'none beyond the bounds'),
-          "technique":"solver-based bounded symbolic execution of the real Go code (go/ssa -> SMT-LIB2, z3): data (timestamps, values, ids, ranges, types, payload bytes) is symbolic and every branch and assertion over it is decided by the solver; discrete choices of a harness (operation kinds, schedule and crash positions, small sizes) are explored exhaustively as forks of that execution; counterexamples are replayed against the natively compiled code"
+          "technique":("goroutine schedules are decisions of the same symbolic execution for the Conc*/Racing*/Concurrent* entries (every schedule with at most PREEMPT pre-emptions at mutex/atomic/sync.Map operations, re-enacted on the compiled code through a type-directed rewrite of those operations); " if any(u.get('sched') for u in spec['units']) else "")+"solver-based bounded symbolic execution of the real Go code (go/ssa -> SMT-LIB2, z3): data (timestamps, values, ids, ranges, types, payload bytes) is symbolic and every branch and assertion over it is decided by the solver; discrete choices of a harness (operation kinds, schedule and crash positions, small sizes) are explored exhaustively as forks of that execution; counterexamples are replayed against the natively compiled code"
         })
     else:
         man['not_applicable'].append({"property_id":pid,"reason":NA.get(pid,PENDING)})
